@@ -133,6 +133,7 @@ def parseMOp (name : String) (args : List String) : Option (MOp Arg) :=
     | some n, some x => some (.resize n x)
     | _, _ => none
   | "retnn", [] => some .retainNonNull
+  | "append", [x] => (parseArg x).map .append
   | _, _ => none
 
 def parseHOp (w : String) : Option HOp :=
